@@ -5,7 +5,8 @@ package client
 
 //@ func (*ovsdbClient).primaryDB
 //@ pure
-//@ ensures result == o.databases[o.primaryDBName]
+//@ ensures (o.primaryDBName in o.databases) ==> result == o.databases[o.primaryDBName]
+//@ ensures !(o.primaryDBName in o.databases) ==> result == nil
 
 // waitForCacheConsistent returns with the cache read-locked on every path.
 //@ func waitForCacheConsistent
